@@ -178,12 +178,15 @@ void PoolWakeState::wakeAll() {
   // its data.running() check but before enterSleep() (which sets the bit).
   // Without the bump, such a thread enters waitFor with a stale epoch and
   // blocks until timeout — causing slow shutdown.
+  //
+  // The futex wake is issued unconditionally as well: the sleep mask is not a
+  // reliable record of who is parked. claimAndWakeOne() clears the claimed
+  // sleeper's bit before issuing a wake that another member of the group may
+  // consume, so a thread can be blocked on the group futex with its bit
+  // already clear; skipping the wake for an all-clear mask would leave it
+  // asleep until its backstop timeout expires.
   for (int32_t g = 0; g < numGroups_; ++g) {
-    if (groupStates_[static_cast<size_t>(g)].sleepMask.load(std::memory_order_relaxed)) {
-      waiterFor(g * groupSize_).bumpAndWakeAll();
-    } else {
-      waiterFor(g * groupSize_).bump();
-    }
+    waiterFor(g * groupSize_).bumpAndWakeAll();
   }
 }
 
